@@ -1,9 +1,152 @@
-import CkbVerif.Model.Molecule
-import CkbVerif.Model.Json
+import CkbVerif.Lemmas.MoleculeVerify
+import CkbVerif.Lemmas.Json
 import CkbVerif.Gen.Schemas
-namespace CkbVerif.C15
-open CkbVerif.Molecule
+/-!
+# C15 — wire and storage encodings round-trip losslessly and hashes commit to content
 
-theorem placeholder : size .byte = 1 := by decide
+All statements are for **every** schema and value (structural induction, no bound), then
+instantiated for the schemas generated from `util/gen-types/schemas/*.mol` (`Gen.Schemas.all`,
+regenerated on every run; `generated_schemas_wf` is re-decided against the regenerated table).
+`encode` is what the generated builders write, `decode`/`verify` what the generated readers check
+and read (`Model/Molecule.lean`); the correspondence harness ties both to the real code.
+The hash function is opaque: hash statements say which bytes are hashed.
+-/
+namespace CkbVerif.C15
+open CkbVerif.Molecule CkbVerif.Gen.Schemas
+
+/-- builder → reader is the identity (both reader modes) -/
+theorem decode_encode (c : Bool) (s : Schema) (v : Val) (hs : wf s = true) (hv : wfv s v = true) :
+    decode c s (encode s v) = some v :=
+  Molecule.decode_encode c s v hs hv
+
+/-- strict decoding accepts only the canonical encoding of the value it returns:
+rebuilding the value field by field reproduces the bytes -/
+theorem encode_decode_canonical (s : Schema) (bs : Bytes) (v : Val) (h : decode false s bs = some v) :
+    encode s v = bs :=
+  Molecule.encode_decode s bs v h
+
+/-- the reader's `verify` (the checks of the generated `Reader::verify`) accepts exactly the
+byte strings that decode -/
+theorem verify_iff_decode (c : Bool) (s : Schema) (bs : Bytes) (hs : wf s = true) :
+    verify c s bs = true ↔ ∃ v, decode c s bs = some v := by
+  rw [verify_eq_decode c s bs hs, Option.isSome_iff_exists]
+
+/-- `from_compatible_slice` accepts whatever `from_slice` accepts, with the same value -/
+theorem compatible_extends_strict (s : Schema) (bs : Bytes) (v : Val) (h : decode false s bs = some v) :
+    decode true s bs = some v :=
+  Molecule.compat_extends s bs v h
+
+/-- two values with the same encoding are the same value (lossless) -/
+theorem encode_injective (s : Schema) (v w : Val) (hs : wf s = true) (hv : wfv s v = true) (hw : wfv s w = true)
+    (h : encode s v = encode s w) : v = w := by
+  have h1 := Molecule.decode_encode false s v hs hv
+  have h2 := Molecule.decode_encode false s w hs hw
+  rw [h] at h1
+  rw [h1] at h2
+  exact Option.some.inj h2
+
+/-- a strictly accepted byte string is the encoding of exactly one value, and that value is what
+decoding returns (uniqueness of the decoded value) -/
+theorem strict_bytes_unique_value (s : Schema) (bs : Bytes) (v w : Val) (hs : wf s = true) (hw : wfv s w = true)
+    (h : decode false s bs = some v) (he : encode s w = bs) : w = v := by
+  have := Molecule.decode_encode false s w hs hw
+  rw [he, h] at this
+  exact (Option.some.inj this).symm
+
+/-! ### the generated schemas -/
+
+/-- every schema generated from the `.mol` files of /repo is well-formed (re-decided on every run) -/
+theorem generated_schemas_wf : ∀ p ∈ all, wf p.2 = true := by decide +kernel
+
+theorem generated_decode_encode (c : Bool) (name : String) (s : Schema) (hm : (name, s) ∈ all) (v : Val)
+    (hv : wfv s v = true) : decode c s (encode s v) = some v :=
+  Molecule.decode_encode c s v (generated_schemas_wf (name, s) hm) hv
+
+theorem generated_verify_iff_decode (c : Bool) (name : String) (s : Schema) (hm : (name, s) ∈ all) (bs : Bytes) :
+    verify c s bs = true ↔ ∃ v, decode c s bs = some v :=
+  verify_iff_decode c s bs (generated_schemas_wf (name, s) hm)
+
+/-! ### hash coverage at the layout level (hash opaque) -/
+
+/-- a table field, as the reader slices it out of a built table, is the encoding of that field -/
+theorem table_field_bytes (fs : List Schema) (vs : List Val) (i : Nat) (hne : fs ≠ [])
+    (hv : wfv (.table fs) (.seq vs) = true) :
+    tableFieldBytes (encode (.table fs) (.seq vs)) i = (encodeL fs vs)[i]? := by
+  simp only [wfv, Bool.and_eq_true, decide_eq_true_eq] at hv
+  have hel := encodeL_length fs vs hv.1
+  have hne' : encodeL fs vs ≠ [] := by
+    intro hc; rw [hc] at hel; cases fs with
+    | nil => exact hne rfl
+    | cons => simp at hel
+  have hsz : 4 * ((encodeL fs vs).length + 1) + (encodeL fs vs).flatten.length < 4294967296 := by
+    rw [hel]; exact hv.2
+  have henc : encode (.table fs) (.seq vs) = encDyn (encodeL fs vs) := by simp only [encode]
+  rw [henc]
+  simp only [tableFieldBytes, dynHeader_encDyn _ hne' hsz, slices_encDyn _ hne']
+
+/-- what `calc_tx_hash` hashes: `self.raw().as_slice()` -/
+def txHashInput (tx : Bytes) : Option Bytes := tableFieldBytes tx 0
+/-- what `calc_witness_hash` hashes: `self.as_slice()` -/
+def witnessHashInput (tx : Bytes) : Bytes := tx
+
+/-- tx hash = H(encoding of `raw` only) -/
+theorem tx_hash_input_is_raw (raw wit : Val) (hv : wfv S.Transaction (.seq [raw, wit]) = true) :
+    txHashInput (encode S.Transaction (.seq [raw, wit])) = some (encode S.RawTransaction raw) := by
+  have := table_field_bytes [S.RawTransaction, S.BytesVec] [raw, wit] 0 (by simp) hv
+  simpa [txHashInput, S.Transaction, encodeL] using this
+
+/-- … so it does not depend on the witnesses … -/
+theorem tx_hash_ignores_witnesses (raw w1 w2 : Val) (h1 : wfv S.Transaction (.seq [raw, w1]) = true)
+    (h2 : wfv S.Transaction (.seq [raw, w2]) = true) :
+    txHashInput (encode S.Transaction (.seq [raw, w1])) = txHashInput (encode S.Transaction (.seq [raw, w2])) := by
+  rw [tx_hash_input_is_raw raw w1 h1, tx_hash_input_is_raw raw w2 h2]
+
+theorem wfv_tx_fields (raw wit : Val) (hv : wfv S.Transaction (.seq [raw, wit]) = true) :
+    wfv S.RawTransaction raw = true ∧ wfv S.BytesVec wit = true := by
+  simp only [S.Transaction, wfv, wfvL, Bool.and_eq_true, Bool.and_true] at hv
+  exact ⟨hv.1.1, hv.1.2⟩
+
+/-- … and binds every field of `raw` (equal pre-images ⇒ equal raw transactions) -/
+theorem tx_hash_binds_raw (r1 w1 r2 w2 : Val) (h1 : wfv S.Transaction (.seq [r1, w1]) = true)
+    (h2 : wfv S.Transaction (.seq [r2, w2]) = true)
+    (h : txHashInput (encode S.Transaction (.seq [r1, w1])) = txHashInput (encode S.Transaction (.seq [r2, w2]))) :
+    r1 = r2 := by
+  rw [tx_hash_input_is_raw r1 w1 h1, tx_hash_input_is_raw r2 w2 h2] at h
+  exact encode_injective S.RawTransaction r1 r2 (by decide +kernel : wf S.RawTransaction = true)
+    (wfv_tx_fields r1 w1 h1).1 (wfv_tx_fields r2 w2 h2).1 (Option.some.inj h)
+
+/-- witness hash = H(whole transaction): binds raw and witnesses -/
+theorem witness_hash_binds_all (t1 t2 : Val) (h1 : wfv S.Transaction t1 = true) (h2 : wfv S.Transaction t2 = true)
+    (h : witnessHashInput (encode S.Transaction t1) = witnessHashInput (encode S.Transaction t2)) : t1 = t2 :=
+  encode_injective S.Transaction t1 t2 (by decide +kernel : wf S.Transaction = true) h1 h2 h
+
+/-- header hash = H(whole header): binds every header field, incl. transactions_root, proposals_hash, extra_hash -/
+theorem header_hash_binds_all (h1 h2 : Val) (w1 : wfv S.Header h1 = true) (w2 : wfv S.Header h2 = true)
+    (h : encode S.Header h1 = encode S.Header h2) : h1 = h2 :=
+  encode_injective S.Header h1 h2 (by decide +kernel : wf S.Header = true) w1 w2 h
+
+/-! ### JSON scalars (`JsonUint<T>`, `JsonBytes`) -/
+
+/-- `0x{:x}` then `visit_str` is the identity on every value of the type -/
+theorem json_uint_roundtrip (bits n : Nat) (h : n < 2 ^ bits) :
+    Json.parseUint bits (Json.showUintChars n) = some n :=
+  Json.parseUint_showUint bits n h
+
+theorem json_bytes_roundtrip (bs : List UInt8) : Json.parseBytes (Json.showBytesChars bs) = some bs :=
+  Json.parseBytes_showBytes bs
+
+/-! ### non-vacuity: the hypotheses are satisfiable by concrete, non-trivial values -/
+
+/-- a Script value: code_hash = 32 bytes, hash_type = 1, args = [0xde, 0xad] -/
+def exScript : Val := .seq [.seq (List.replicate 32 (.byte 7)), .byte 1, .seq [.byte 0xde, .byte 0xad]]
+
+example : wfv S.Script exScript = true := by decide +kernel
+example : (encode S.Script exScript).length = 55 := by decide +kernel
+example : decode false S.Script (encode S.Script exScript) = some exScript :=
+  decode_encode false S.Script exScript (by decide +kernel) (by decide +kernel)
+/-- a table with an extra field is accepted only in compatible mode -/
+example : verify false (.table [.byte]) [14, 0, 0, 0, 12, 0, 0, 0, 13, 0, 0, 0, 5, 9] = false
+    ∧ verify true (.table [.byte]) [14, 0, 0, 0, 12, 0, 0, 0, 13, 0, 0, 0, 5, 9] = true := by decide +kernel
+example : Json.parseUint 64 "0x1f".toList = some 31 := by decide +kernel
 
 end CkbVerif.C15
